@@ -167,6 +167,22 @@ def run_case(ck, desc):
         if not ck.margin("rho_o*Bo=stock-tank+dissolved-gas (array call)", e, 1e-12):
             ck.violation("rho_o*Bo=stock-tank+dissolved-gas", {"array_dtype": label, "worst_rel": e, "p": arr.tolist(), "Rs_array": ra.tolist()}, desc)
         ck.count("oil_array_calls")
+    # a 2-D pressure array in column-major memory (a transposed history table): element [i, j] of
+    # density and of Bo belongs to pressure [i, j]; judged against SCALAR calls element by element
+    if len(pa) >= 6:
+        p2 = np.asfortranarray(pa[:6].reshape(2, 3))
+        try:
+            d2d = np.asarray(oil.density_Standing(To, p2, api, gg, gor), dtype=float)
+            b2d = np.asarray(oil.b_o_Standing(To, p2, api, gg, gor), dtype=float)
+        except Exception as e:  # noqa: BLE001
+            ck.count(f"oil_2d_not_accepted.{type(e).__name__}")
+        else:
+            dref = np.array([[float(oil.density_Standing(To, float(x), api, gg, gor)) for x in row] for row in p2])
+            bref = np.array([[float(oil.b_o_Standing(To, float(x), api, gg, gor)) for x in row] for row in p2])
+            e = max(float(np.max(np.abs(d2d / dref - 1))), float(np.max(np.abs(b2d / bref - 1)))) if d2d.shape == p2.shape and b2d.shape == p2.shape else np.inf
+            if not ck.margin("oil density / Bo on a column-major 2-D array = scalar calls", e, 1e-12):
+                ck.violation("rho_o*Bo=stock-tank+dissolved-gas", {"array": "2-D column-major", "worst_rel": e}, desc)
+            ck.count("oil_2d_arrays")
     # the caller re-uses its pressure buffer: same array object, new contents, second call
     buf = pa.copy()
     oil.density_Standing(To, buf, api, gg, gor)
